@@ -283,7 +283,9 @@ def _check_hp(c, which, xs, kw, span_serials, trend_snap, gap_snap, level_snap, 
         scale = max(float(np.abs(yw[present]).max()) if present.any() else 0.0, float(np.abs(sols[0].trend).max()), 1e-300)
         if log:
             scale = max(scale, 1.0)
-        tol = (1e-10 + 1000 * EPS * sols[0].cond) * scale
+        # (the implementation solves one KKT system in which the smoothing parameter multiplies the curvature block: its rounding is
+        # of the order eps * lambda even where the constraints alone determine the trend and the reduced problem has cond 1)
+        tol = (1e-10 + 1000 * EPS * max(sols[0].cond, float(lams[0]))) * scale
         sl = slice(s0 - lo, s1 - lo + 1)
 
         t_out = None
